@@ -136,6 +136,7 @@ def run(spec):
         _prepare(sp, cwd)
         res = run_one(sp, cwd, ev)
         last = sp
+    ev.active = False
     res["outputs"] = _snapshot(cwd, last.get("files") or {})
     res["events"] = ev.to_json()
     # make event paths relative to the scratch cwd
@@ -155,3 +156,46 @@ def run(spec):
 def run_case(case):
     """Pool entry point."""
     return run(case)
+
+
+# ------------------------------------------------------------------ fresh-process runs
+
+def run_subprocess(spec):
+    """Run the real command line in a fresh interpreter.
+    Extra spec keys: env (dict, replaces the environment apart from PATH),
+    hashseed (str), cwd_abs (bool: run from another directory with absolute paths),
+    pre_files ({relpath: text} stale files created before the run, not counted as inputs)."""
+    import shutil
+    import subprocess
+    repo = os.environ.get("VERIF_REPO", "/repo")
+    cwd = _scratch()
+    try:
+        _prepare(spec, cwd)
+        for rel, text in (spec.get("pre_files") or {}).items():
+            p = os.path.join(cwd, rel)
+            os.makedirs(os.path.dirname(p), exist_ok=True)
+            with open(p, "w") as f:
+                f.write(text)
+        env = {"PATH": os.environ.get("PATH", "/usr/bin:/bin")}
+        env.update(spec.get("env") or {})
+        env["PYTHONHASHSEED"] = str(spec.get("hashseed", "0"))
+        env["PYTHONPATH"] = repo
+        env["PYTHONDONTWRITEBYTECODE"] = "1"
+        argv = list(spec["argv"])
+        runcwd = cwd
+        if spec.get("cwd_abs"):
+            runcwd = os.path.join(cwd, "elsewhere")
+            os.makedirs(runcwd, exist_ok=True)
+        code = "import shroud.main as m; m.main()"
+        try:
+            p = subprocess.run([sys.executable, "-c", code] + argv, cwd=runcwd, env=env,
+                               capture_output=True, text=True, timeout=spec.get("timeout", 120))
+            res = {"exit": p.returncode, "stdout": p.stdout[-3000:], "stderr": p.stderr[-3000:], "exc": None}
+        except subprocess.TimeoutExpired:
+            return {"timeout": True}
+        inputs = dict(spec.get("files") or {})
+        res["outputs"] = _snapshot(cwd, inputs)
+        res["events"] = {}
+        return res
+    finally:
+        shutil.rmtree(cwd, ignore_errors=True)
